@@ -165,3 +165,35 @@ Qed.
 
 Lemma transport_closed_partial c s : reach c s -> finished c s -> cw_leak s = false -> tr_closing s = true.
 Proof. intros R [Hc Hn] Hl. eapply closed_implies_transport_closed; eauto. Qed.
+
+(* a blocked receive() that is the registered waiter of the queue; a blocked close() with its timer armed *)
+Lemma witness_blocked_receive :
+  exists s, reach cfgS s /\ t_pc (tasks s 0) = PRecvWait /\ t_fut (tasks s 0) = None /\ q_waiter s = Some 0%nat /\
+            waiting s = true /\ closed s = false /\ closing s = false /\ tr_closing s = false /\ lost s = false /\
+            proto_close s = false /\ rd_exc s = false /\ close_wait s = None.
+Proof.
+  destruct (play cfgS (init cfgS) [[ECall 0 OpRecv]]) as [s|] eqn:E; [|vm_compute in E; discriminate].
+  exists s. split; [eapply reach_play; [apply reach_init|exact E]|].
+  vm_compute in E. inversion E; subst. clear E. repeat split; reflexivity.
+Qed.
+Lemma witness_blocked_close :
+  exists s, reach cfgS s /\ t_pc (tasks s 0) = PCloseRead KTop /\ t_fut (tasks s 0) = None /\
+            t_tmo (tasks s 0) = Some (now s + 9) /\ t_expired (tasks s 0) = false /\ t_cancel (tasks s 0) = false.
+Proof.
+  destruct (play cfgS (init cfgS) [[ECall 0 (OpClose 1000)]]) as [s|] eqn:E; [|vm_compute in E; discriminate].
+  exists s. split; [eapply reach_play; [apply reach_init|exact E]|].
+  vm_compute in E. inversion E; subst. clear E. repeat split; reflexivity.
+Qed.
+
+(* why "a blocked reader is the registered waiter" is not an invariant: client, receive() of task 0 woken by a text
+   frame and cancelled before it runs, close() of tasks 1 and 2 started in between: task 2 consumes the buffer and
+   registers, then the cancelled read() of task 0 executes `self._waiter = None` *)
+Lemma witness_registration_wiped :
+  exists s, reach cfgC s /\ t_pc (tasks s 2) = PCloseRead KTop /\ t_fut (tasks s 2) = None /\ q_waiter s = None /\ ready s = [].
+Proof.
+  destruct (play cfgC (init cfgC)
+              [[ECall 0 OpRecv]; [ECall 1 (OpClose 1000); ECall 2 (OpClose 1000); EPeer (PMsg MText); ECancel 0]])
+    as [s|] eqn:E; [|vm_compute in E; discriminate].
+  exists s. split; [eapply reach_play; [apply reach_init|exact E]|].
+  vm_compute in E. inversion E; subst. clear E. repeat split; reflexivity.
+Qed.
